@@ -22,7 +22,15 @@ type SeqV struct {
 }
 
 func (x *Exec) havocSliceOf(e *Env, t types.Type, u *types.Slice, base string) Value {
-	unsupported("symbolic slice of %s", u.Elem())
+	// `seqlen NAME N` in the contract: the parameter is a slice of exactly N (a constant) elements
+	if n, ok := x.seqLens[base]; ok {
+		sv := SeqV{Len: IntC(int64(n)), Typ: t}
+		for i := 0; i < n; i++ {
+			sv.Elems = append(sv.Elems, x.havoc(e, u.Elem(), fmt.Sprintf("%s[%d]", base, i)))
+		}
+		return sv
+	}
+	unsupported("symbolic slice of %s (give its length with a seqlen clause)", u.Elem())
 	return nil
 }
 
